@@ -1,4 +1,4 @@
-// GENERATED on every run by vlib/extract.py from /tmp/seedcheck-6643 -- do not edit
+// GENERATED on every run by vlib/extract.py from /tmp/rp -- do not edit
 #![allow(unused_imports, unused_variables, unused_mut, dead_code, unused_parens, unused_braces, non_snake_case)]
 use vstd::prelude::*;
 use core::cmp::Ordering;
@@ -1029,9 +1029,7 @@ pub fn combined_name(&self) -> (r: Cow<'_, str>)
                 x_cow_from_str(self.name())
             },
             PackageType::Golang | PackageType::Npm => match self.namespace() {
-                Some(namespace) => {
-                    Cow::Owned(format!("{}/{}", namespace.trim_end_matches('/'), self.name()))
-                },
+                Some(namespace) => Cow::Owned(x_concat3(namespace, '/', self.name())),
                 None => x_cow_from_str(self.name()),
             },
             PackageType::Maven => match self.namespace() {
